@@ -195,60 +195,69 @@ COp(kind, nm, t) ==
 NoC == [ins |-> <<>>, inits |-> <<>>, nodes |-> <<>>, nm |-> ""]
 AddWith(c, node) == TryAdd(c.ins, c.inits, c.nodes \o <<node>>)
 
-UnOps == {"Neg", "Abs", "Relu", "Identity", "Dropout"}
+\* primary operand of a new node: the most recent value (slim menus: chains), or any available value (rich menus)
+Prim == IF Rich \/ m0.main = <<>> THEN Avail ELSE {m0.main[Len(m0.main)]}
+PrimF == {a \in Prim : V1(a).dt = "f32"}
+PrimS == {a \in Prim : V1(a).dt = "i64" /\ Rank(V1(a)) = 1}
+UnOps == IF Rich THEN {"Neg", "Abs", "Relu", "Identity", "Dropout"} ELSE {"Neg", "Relu", "Identity", "Dropout"}
 AddUnary == /\ CanAdd
-            /\ \E a \in AvailF, op \in UnOps : TryAdd(<<>>, <<>>, <<N1(op, <<a>>, vN)>>)
+            /\ \E a \in PrimF, op \in UnOps : TryAdd(<<>>, <<>>, <<N1(op, <<a>>, vN)>>)
 AddDropoutMask == /\ CanAdd /\ Rich
-                  /\ \E a \in AvailF : TryAdd(<<>>, <<>>, <<Nd("Dropout", <<a>>, <<vN, "m" \o Str(NextId(m0))>>, NoAt, <<>>)>>)
+                  /\ \E a \in PrimF : TryAdd(<<>>, <<>>, <<Nd("Dropout", <<a>>, <<vN, "m" \o Str(NextId(m0))>>, NoAt, <<>>)>>)
 AddCast == /\ CanAdd
-           /\ \E a \in Avail, to \in {"i64", "f32"} :
+           /\ \E a \in Prim, to \in {"i64", "f32"} :
                  TryAdd(<<>>, <<>>, <<Nd("Cast", <<a>>, <<vN>>, [NoAt EXCEPT !.to = to], <<>>)>>)
 AddCastLike == /\ CanAdd
-               /\ \E a \in AvailF, b2 \in Avail \cup {"b"} : b2 \in DOMAIN envs[1] /\ TryAdd(<<>>, <<>>, <<N1("CastLike", <<a, b2>>, vN)>>)
+               /\ \E a \in PrimF, b2 \in (IF Rich THEN Avail \cup {"b"} ELSE {"x", "b"}) :
+                     b2 \in DOMAIN envs[1] /\ TryAdd(<<>>, <<>>, <<N1("CastLike", <<a, b2>>, vN)>>)
 Perms(r) == IF r = 2 THEN {<<0, 1>>, <<1, 0>>}
             ELSE IF r = 3 THEN {<<0, 1, 2>>, <<0, 2, 1>>, <<1, 0, 2>>, <<1, 2, 0>>, <<2, 0, 1>>, <<2, 1, 0>>} ELSE {}
 AddTranspose == /\ CanAdd
-                /\ \E a \in AvailF : \E p \in Perms(Rank(V1(a))) :
+                /\ \E a \in PrimF : \E p \in Perms(Rank(V1(a))) :
                       TryAdd(<<>>, <<>>, <<Nd("Transpose", <<a>>, <<vN>>, [NoAt EXCEPT !.perm = p], <<>>)>>)
-CVals == IF Rich THEN {FS(0), FS(1), FS(-1), FS(2), FV(<<0>>), FV(<<1>>)} ELSE {FS(0), FS(1), FS(2)}
-BinCOps == {"Add", "Sub", "Mul", "Min", "Max"}
+\* op(a, constant): <<op, value, kind>>
+BinCMenu ==
+   IF Rich THEN {<<op, t, k>> : op \in {"Add", "Sub", "Mul", "Min", "Max"}, t \in {FS(0), FS(1), FS(-1), FS(2), FV(<<0>>), FV(<<1>>)}, k \in CKindsAll}
+   ELSE {<<"Add", FS(0), "init">>, <<"Add", FS(0), "ovr">>, <<"Add", FS(1), "cnode">>, <<"Mul", FS(1), "init">>, <<"Sub", FS(0), "cnode">>,
+         <<"Min", FS(1), "init">>, <<"Min", FS(1), "ovr">>, <<"Max", FS(0), "init">>, <<"Max", FS(2), "cnode">>, <<"Mul", FS(2), "iexpr">>}
 AddBinConst == /\ CanAdd
-               /\ \E a \in AvailF, op \in BinCOps, t \in CVals, kind \in (IF Rich THEN CKindsAll ELSE CKindsPlain),
-                     flip \in BOOLEAN :
-                     /\ flip => (op \in {"Add", "Mul"} /\ Rich)
-                     /\ LET c == COp(kind, cN, t) IN AddWith(c, N1(op, IF flip THEN <<c.nm, a>> ELSE <<a, c.nm>>, vN))
+               /\ \E a \in PrimF, e \in BinCMenu, flip \in BOOLEAN :
+                     /\ flip => (e[1] \in {"Add", "Mul"} /\ Rich)
+                     /\ LET c == COp(e[3], cN, e[2]) IN AddWith(c, N1(e[1], IF flip THEN <<c.nm, a>> ELSE <<a, c.nm>>, vN))
 AddBin == /\ CanAdd
-          /\ \E a \in AvailF, b2 \in AvailF, op \in (IF Rich THEN {"Add", "Mul", "Sub", "Min"} ELSE {"Add", "Mul"}) :
+          /\ \E a \in PrimF, b2 \in AvailF, op \in (IF Rich THEN {"Add", "Mul", "Sub", "Min"} ELSE {"Add"}) :
                 TryAdd(<<>>, <<>>, <<N1(op, <<a, b2>>, vN)>>)
-ClipBounds == IF Rich THEN {NONEB, -2, -1, 0, 1, 2} ELSE {NONEB, -1, 1}
+ClipMenu == IF Rich THEN {<<lo, hi, k>> : lo \in {NONEB, -2, -1, 0, 1, 2}, hi \in {NONEB, -2, -1, 0, 1, 2}, k \in CKindsPlain}
+            ELSE {<<-1, 1, "init">>, <<NONEB, -1, "cnode">>, <<1, NONEB, "init">>}
 AddClip == /\ CanAdd
-           /\ \E a \in AvailF, lo \in ClipBounds, hi \in ClipBounds, kind \in (IF Rich THEN CKindsPlain ELSE {"init", "cnode"}) :
-                 /\ lo # NONEB \/ hi # NONEB
-                 /\ LET cl == IF lo = NONEB THEN NoC ELSE COp(kind, cN, FS(lo))
-                        ch == IF hi = NONEB THEN NoC ELSE COp(kind, dN, FS(hi))
+           /\ \E a \in PrimF, e \in ClipMenu :
+                 /\ e[1] # NONEB \/ e[2] # NONEB
+                 /\ LET cl == IF e[1] = NONEB THEN NoC ELSE COp(e[3], cN, FS(e[1]))
+                        ch == IF e[2] = NONEB THEN NoC ELSE COp(e[3], dN, FS(e[2]))
                     IN TryAdd(cl.ins \o ch.ins, cl.inits \o ch.inits,
-                              cl.nodes \o ch.nodes \o <<N1("Clip", IF hi = NONEB THEN <<a, cl.nm>> ELSE <<a, cl.nm, ch.nm>>, vN)>>)
+                              cl.nodes \o ch.nodes \o <<N1("Clip", IF e[2] = NONEB THEN <<a, cl.nm>> ELSE <<a, cl.nm, ch.nm>>, vN)>>)
 \* shape computations: Shape, Size, Gather from a shape vector, Concat of shape vectors
 IdxVals == IF Rich THEN {IVec(<<0>>), IVec(<<-1>>), IVec(<<1, 0>>), Scalar("i64", 0)} ELSE {IVec(<<0>>), IVec(<<-1>>)}
 AddShapeOp == /\ CanAdd
-              /\ \/ \E a \in Avail : TryAdd(<<>>, <<>>, <<N1("Shape", <<a>>, vN)>>)
-                 \/ Rich /\ \E a \in Avail : TryAdd(<<>>, <<>>, <<N1("Size", <<a>>, vN)>>)
-                 \/ \E s \in AvailS, idx \in IdxVals, kind \in {"cnode", "init"}, ax \in (IF Rich THEN {0, NOAX} ELSE {0}) :
+              /\ \/ \E a \in Prim \cup (IF "y" \in InNames(m0) THEN {"y"} ELSE {}) : TryAdd(<<>>, <<>>, <<N1("Shape", <<a>>, vN)>>)
+                 \/ Rich /\ \E a \in Prim : TryAdd(<<>>, <<>>, <<N1("Size", <<a>>, vN)>>)
+                 \/ \E s \in PrimS, idx \in IdxVals, kind \in (IF Rich THEN {"cnode", "init"} ELSE {"init"}), ax \in (IF Rich THEN {0, NOAX} ELSE {0}) :
                        AddWith(COp(kind, cN, idx), Nd("Gather", <<s, cN>>, <<vN>>, [NoAt EXCEPT !.axis = ax], <<>>))
-                 \/ \E s \in AvailS, s2 \in AvailS : TryAdd(<<>>, <<>>, <<Nd("Concat", <<s, s2>>, <<vN>>, [NoAt EXCEPT !.axis = 0], <<>>)>>)
-                 \/ \E s \in AvailS, kind \in {"cnode", "init"}, front \in BOOLEAN :
+                 \/ \E s \in PrimS, s2 \in AvailS : TryAdd(<<>>, <<>>, <<Nd("Concat", <<s, s2>>, <<vN>>, [NoAt EXCEPT !.axis = 0], <<>>)>>)
+                 \/ \E s \in PrimS, kind \in (IF Rich THEN {"cnode", "init"} ELSE {"cnode"}), front \in (IF Rich THEN BOOLEAN ELSE {FALSE}) :
                        AddWith(COp(kind, cN, IVec(<<1>>)), Nd("Concat", IF front THEN <<cN, s>> ELSE <<s, cN>>, <<vN>>, [NoAt EXCEPT !.axis = 0], <<>>))
 \* Reshape / Expand: target = a computed shape vector or a constant
 RTargets == {IVec(<<-1>>), IVec(<<3>>), IVec(<<1, -1>>), IVec(<<3, 1>>), IVec(<<2, 3>>), IVec(<<6>>), IVec(<<0, -1>>)}
 ETargets == {IVec(<<3>>), IVec(<<1, 3>>), IVec(<<2, 3>>), IVec(<<1>>), IVec(<<2, 1, 3>>)}
+TKinds == IF Rich THEN CKindsPlain ELSE {"init", "ovr"}
 AddReshape == /\ CanAdd
-              /\ \/ \E a \in AvailF, s \in AvailS : TryAdd(<<>>, <<>>, <<N1("Reshape", <<a, s>>, vN)>>)
-                 \/ \E a \in AvailF, t \in RTargets, kind \in CKindsPlain : AddWith(COp(kind, cN, t), N1("Reshape", <<a, cN>>, vN))
+              /\ \/ \E a \in AvailF, s \in PrimS : TryAdd(<<>>, <<>>, <<N1("Reshape", <<a, s>>, vN)>>)
+                 \/ \E a \in PrimF, t \in RTargets, kind \in TKinds : AddWith(COp(kind, cN, t), N1("Reshape", <<a, cN>>, vN))
 AddExpand == /\ CanAdd
-             /\ \/ \E a \in AvailF, s \in AvailS : TryAdd(<<>>, <<>>, <<N1("Expand", <<a, s>>, vN)>>)
-                \/ \E a \in AvailF, t \in ETargets, kind \in CKindsPlain : AddWith(COp(kind, cN, t), N1("Expand", <<a, cN>>, vN))
+             /\ \/ \E a \in AvailF, s \in PrimS : TryAdd(<<>>, <<>>, <<N1("Expand", <<a, s>>, vN)>>)
+                \/ \E a \in PrimF, t \in ETargets, kind \in TKinds : AddWith(COp(kind, cN, t), N1("Expand", <<a, cN>>, vN))
 AddUnsqueeze == /\ CanAdd
-                /\ \E a \in AvailF, ax \in {<<0>>, <<1>>}, kind \in {"cnode", "init"}, op \in (IF Rich THEN {"Unsqueeze", "Squeeze"} ELSE {"Unsqueeze"}) :
+                /\ \E a \in PrimF, ax \in {<<0>>, <<1>>}, kind \in (IF Rich THEN {"cnode", "init"} ELSE {"init"}), op \in (IF Rich THEN {"Unsqueeze", "Squeeze"} ELSE {"Unsqueeze"}) :
                       AddWith(COp(kind, cN, IVec(ax)), N1(op, <<a, cN>>, vN))
 \* If: condition = graph input b, Not(b), or a constant; branches capture the outer value a
 Branch(tpl, a, tag, id) ==
@@ -258,18 +267,22 @@ Branch(tpl, a, tag, id) ==
      [] tpl = "mulc" -> SubG(<<>>, <<ConstNode(w, FS(2)), N1("Mul", <<a, w>>, o)>>, <<o>>)
      [] tpl = "relu2" -> SubG(<<>>, <<N1("Relu", <<a>>, o \o "a"), N1("Relu", <<o \o "a">>, o)>>, <<o>>)
      [] tpl = "addfold" -> SubG(<<IniR(w, FS(3))>>, <<N1("Neg", <<w>>, o \o "a"), N1("Add", <<a, o \o "a">>, o)>>, <<o>>)
-BranchTpls == IF Rich THEN {"addw", "ident", "mulc", "relu2", "addfold"} ELSE {"addw", "ident", "mulc"}
+BranchPairs == IF Rich THEN {<<t, e>> : t \in {"addw", "ident", "mulc", "relu2", "addfold"}, e \in {"addw", "ident", "mulc", "relu2", "addfold"}}
+               ELSE {<<"addw", "ident">>, <<"mulc", "addw">>}
+\* condition: <<kind, value>>
+CondMenu == IF Rich THEN {<<"b", TRUE>>, <<"nb", TRUE>>} \cup {<<k, v>> : k \in CKindsPlain, v \in BOOLEAN}
+            ELSE {<<"b", TRUE>>, <<"init", TRUE>>, <<"ovr", FALSE>>}
 SubOK(sg, k) == LET e2 == EvalSeq(sg.nodes, 1, InitEnv(sg.inits) @@ envs[k]) IN \A i \in 1..Len(sg.outs) : ~IsErr(Get(e2, sg.outs[i]))
 AddIf == /\ CanAdd /\ "b" \in InNames(m0)
-         /\ \E a \in AvailF, tt \in BranchTpls, te \in BranchTpls, cond \in {"b", "nb"} \cup CKindsPlain, cv \in BOOLEAN :
+         /\ \E a \in PrimF, bp \in BranchPairs, cd \in CondMenu :
                LET id == NextId(m0)
-                   c == IF cond \in CKindsPlain THEN COp(cond, cN, BS(cv))
+                   cond == cd[1]
+                   c == IF cond \in CKindsPlain THEN COp(cond, cN, BS(cd[2]))
                         ELSE IF cond = "nb" THEN [ins |-> <<>>, inits |-> <<>>, nodes |-> <<N1("Not", <<"b">>, "nb" \o Str(id))>>, nm |-> "nb" \o Str(id)]
                         ELSE [ins |-> <<>>, inits |-> <<>>, nodes |-> <<>>, nm |-> "b"]
-                   sgT == Branch(tt, a, "t", id)
-                   sgE == Branch(te, a, "e", id)
-               IN /\ cond \notin CKindsPlain => cv
-                  /\ \A k \in 1..NP : SubOK(sgT, k) /\ SubOK(sgE, k)
+                   sgT == Branch(bp[1], a, "t", id)
+                   sgE == Branch(bp[2], a, "e", id)
+               IN /\ \A k \in 1..NP : SubOK(sgT, k) /\ SubOK(sgE, k)
                   /\ AddWith(c, Nd("If", <<c.nm>>, <<vN>>, NoAt, <<sgT, sgE>>))
 -----------------------------------------------------------------------------
 (* ============================ the optimizer ============================== *)
@@ -762,8 +775,7 @@ Init == /\ stage = "build"
         /\ gr = <<>> /\ st = <<>> /\ dsg = <<>>
 \* graph outputs: the last value; optionally a second output: an earlier value, an initializer, the graph input x
 ExtraOuts == LET s == m0.main IN
-   {s[j] : j \in 1..(Len(s) - 1)}
-   \cup (IF Rich THEN {m0.inits[i].name : i \in 1..Len(m0.inits)} \cup {"x"} ELSE {})
+   IF Rich THEN {s[j] : j \in 1..(Len(s) - 1)} \cup {m0.inits[i].name : i \in 1..Len(m0.inits)} \cup {"x"} ELSE {}
 RECURSIVE SubTy(_)
 SubTy(nodes) == IF nodes = <<>> THEN EmptyF
                 ELSE LET n == Head(nodes)
